@@ -437,31 +437,33 @@ ApiNext(p) ==
 -----------------------------------------------------------------------------
 (* handler flags: ARP spoof loop, Close, RA branch of Handler6.ProcessPacket *)
 HandlerNext ==
-  \* ARP spoofLoop: arpMutex.Lock(); _, hunting = findHuntByIP(); Unlock()
+  \* ARP spoofLoop: arpMutex.Lock(); _, hunting = huntList[mac]; closed := h.closed; Unlock()   (f0fba2f)
   \/ /\ pc["arp"] = "arp_lock" /\ arpMu = NoProc /\ arpMu' = "arp" /\ Goto("arp", "arp_check")
      /\ UNCHANGED <<Data, sess, row, loc, hunting, arpClosed, closeChanClosed, h6Chan, h6Mu, h6Closed, sessClosed, Flags>>
-  \/ /\ pc["arp"] = "arp_check" /\ SetLoc("arp", [loc["arp"] EXCEPT !.hunt = hunting]) /\ arpMu' = NoProc /\ Goto("arp", "arp_act")
+  \/ /\ pc["arp"] = "arp_check" /\ SetLoc("arp", [loc["arp"] EXCEPT !.hunt = hunting, !.flag = arpClosed]) /\ arpMu' = NoProc
+     /\ Goto("arp", "arp_act")
      /\ UNCHANGED <<Data, sess, row, hunting, arpClosed, closeChanClosed, h6Chan, h6Mu, h6Closed, sessClosed, Flags>>
-  \* `if !hunting || h.closed {` : closed read without the mutex
+  \* `if !hunting || closed {` on the values read under the mutex
   \/ /\ pc["arp"] = "arp_act"
-     /\ Goto("arp", IF ~loc["arp"].hunt \/ arpClosed THEN "done" ELSE "arp_select")
+     /\ Goto("arp", IF ~loc["arp"].hunt \/ loc["arp"].flag THEN "done" ELSE "arp_select")
      /\ UNCHANGED <<Data, sess, row, loc, HVars, Flags>>
   \* select { case <-h.closeChan: ; case <-ticker: }   (the 6 s ticker does not fire within a run)
   \/ /\ pc["arp"] = "arp_select" /\ closeChanClosed
      /\ Goto("arp", "arp_lock") /\ UNCHANGED <<Data, sess, row, loc, HVars, Flags>>
-  \* ICMPv6 spoofLoop: h.Lock(); if huntList.Index(mac) == -1 || h.closed { Unlock; return }; ...; Unlock
+  \* ICMPv6 spoofLoop: h.Lock(); wake := h.closeChan; if huntList.Index(mac) == -1 || h.closed { Unlock; return }; ...; Unlock  (96b01bc)
   \/ /\ pc["ndp"] = "ndp_lock" /\ h6Mu = NoProc /\ h6Mu' = "ndp" /\ Goto("ndp", "ndp_check")
      /\ UNCHANGED <<Data, sess, row, loc, arpMu, hunting, arpClosed, closeChanClosed, h6Chan, h6Closed, sessClosed, Flags>>
-  \/ /\ pc["ndp"] = "ndp_check" /\ h6Mu' = NoProc /\ Goto("ndp", IF h6Closed THEN "done" ELSE "ndp_select")
-     /\ UNCHANGED <<Data, sess, row, loc, arpMu, hunting, arpClosed, closeChanClosed, h6Chan, h6Closed, sessClosed, Flags>>
-  \* select { case <-h.closeChan: ...}: the channel variable is read without the mutex; the loop wakes
-  \* up when the channel it read has been closed (by an RA or by Close)
-  \/ /\ pc["ndp"] = "ndp_select" /\ SetLoc("ndp", [loc["ndp"] EXCEPT !.fi = h6Chan]) /\ Goto("ndp", "ndp_wait")
-     /\ UNCHANGED <<Data, sess, row, HVars, Flags>>
+  \/ /\ pc["ndp"] = "ndp_check" /\ h6Mu' = NoProc /\ Goto("ndp", IF h6Closed THEN "done" ELSE "ndp_wait")
+     /\ SetLoc("ndp", [loc["ndp"] EXCEPT !.fi = h6Chan])          \* the channel value read under the mutex
+     /\ UNCHANGED <<Data, sess, row, arpMu, hunting, arpClosed, closeChanClosed, h6Chan, h6Closed, sessClosed, Flags>>
+  \* select { case <-wake: ...}: wakes up when the channel it read has been closed (by an RA or by Close)
   \/ /\ pc["ndp"] = "ndp_wait" /\ (h6Chan > loc["ndp"].fi \/ h6Closed)
      /\ Goto("ndp", "ndp_lock") /\ UNCHANGED <<Data, sess, row, loc, HVars, Flags>>
-  \* arp_spoofer.Handler.IsHunting -> findHuntByIP: `for _, v := range h.huntList` without arpMutex
-  \/ /\ pc["ish"] = "ish_read" /\ Goto("ish", "done") /\ UNCHANGED <<Data, sess, row, loc, HVars, Flags>>
+  \* arp_spoofer.Handler.IsHunting: arpMutex.RLock(); findHuntByIP; RUnlock()   (bc9b0bc)
+  \/ /\ pc["ish"] = "ish_read" /\ arpMu = NoProc /\ arpMu' = "ish" /\ Goto("ish", "ish_body")
+     /\ UNCHANGED <<Data, sess, row, loc, hunting, arpClosed, closeChanClosed, h6Chan, h6Mu, h6Closed, sessClosed, Flags>>
+  \/ /\ pc["ish"] = "ish_body" /\ arpMu' = NoProc /\ Goto("ish", "done")
+     /\ UNCHANGED <<Data, sess, row, loc, hunting, arpClosed, closeChanClosed, h6Chan, h6Mu, h6Closed, sessClosed, Flags>>
   \* arp_spoofer.Handler.StartHunt: arpMutex.Lock(); h.huntList[mac] = addr; Unlock()
   \/ /\ pc["sth"] = "sth_lock" /\ arpMu = NoProc /\ arpMu' = "sth" /\ Goto("sth", "sth_write")
      /\ UNCHANGED <<Data, sess, row, loc, hunting, arpClosed, closeChanClosed, h6Chan, h6Mu, h6Closed, sessClosed, Flags>>
@@ -472,25 +474,29 @@ HandlerNext ==
      /\ UNCHANGED <<Data, sess, row, loc, arpMu, hunting, arpClosed, closeChanClosed, h6Chan, h6Closed, sessClosed, Flags>>
   \/ /\ pc["nsth"] = "nsth_write" /\ h6Mu' = NoProc /\ Goto("nsth", "done")
      /\ UNCHANGED <<Data, sess, row, loc, arpMu, hunting, arpClosed, closeChanClosed, h6Chan, h6Closed, sessClosed, Flags>>
-  \* Handler.Close: h.closed = true; close(h.closeChan)   (no mutex)
-  \/ /\ pc["closer"] = "cl_arp" /\ arpClosed' = TRUE /\ closeChanClosed' = TRUE /\ Goto("closer", "cl_h6")
-     /\ UNCHANGED <<Data, sess, row, loc, arpMu, hunting, h6Chan, h6Mu, h6Closed, sessClosed, Flags>>
-  \* Handler6.Close: h.closed = true; close(h.closeChan)   (no mutex)
-  \/ /\ pc["closer"] = "cl_h6" /\ h6Closed' = TRUE /\ Goto("closer", "cl_sess")
+  \* arp Handler.Close: arpMutex.Lock(); h.closed = true; close(h.closeChan); Unlock()   (f0fba2f)
+  \/ /\ pc["closer"] = "cl_arp" /\ arpMu = NoProc /\ arpMu' = "closer" /\ Goto("closer", "cl_arp_body")
+     /\ UNCHANGED <<Data, sess, row, loc, hunting, arpClosed, closeChanClosed, h6Chan, h6Mu, h6Closed, sessClosed, Flags>>
+  \/ /\ pc["closer"] = "cl_arp_body" /\ arpClosed' = TRUE /\ closeChanClosed' = TRUE /\ arpMu' = NoProc /\ Goto("closer", "cl_h6")
+     /\ UNCHANGED <<Data, sess, row, loc, hunting, h6Chan, h6Mu, h6Closed, sessClosed, Flags>>
+  \* Handler6.Close: h.Lock(); h.closed = true; close(h.closeChan); Unlock()   (96b01bc)
+  \/ /\ pc["closer"] = "cl_h6" /\ h6Mu = NoProc /\ h6Mu' = "closer" /\ Goto("closer", "cl_h6_body")
+     /\ UNCHANGED <<Data, sess, row, loc, arpMu, hunting, arpClosed, closeChanClosed, h6Chan, h6Closed, sessClosed, Flags>>
+  \/ /\ pc["closer"] = "cl_h6_body" /\ h6Closed' = TRUE /\ h6Mu' = NoProc /\ Goto("closer", "cl_sess")
      /\ SetLoc("closer", [loc["closer"] EXCEPT !.fi = h6Chan + 1])        \* which channel value Close closed (+1; 0 = none)
-     /\ UNCHANGED <<Data, sess, row, arpMu, hunting, arpClosed, closeChanClosed, h6Chan, h6Mu, sessClosed, Flags>>
+     /\ UNCHANGED <<Data, sess, row, arpMu, hunting, arpClosed, closeChanClosed, h6Chan, sessClosed, Flags>>
   \* Session.Close: h.closed = true; close(h.closeChan); close(h.C); h.Conn.Close()
   \/ /\ pc["closer"] = "cl_sess" /\ sessClosed' = TRUE /\ Goto("closer", "done")
      /\ UNCHANGED <<Data, sess, row, loc, arpMu, hunting, arpClosed, closeChanClosed, h6Chan, h6Mu, h6Closed, Flags>>
-  \* RA branch (no mutex): `if h.huntList.Len() > 0 && !h.closed { ch := h.closeChan; h.closeChan = make(chan bool); close(ch) }`
-  \/ /\ pc["ra"] = "ra_read" /\ SetLoc("ra", [loc["ra"] EXCEPT !.hunt = ~h6Closed]) /\ Goto("ra", "ra_swap")
-     /\ UNCHANGED <<Data, sess, row, HVars, Flags>>
-  \/ /\ pc["ra"] = "ra_swap" /\ Goto("ra", "done")
-     /\ IF loc["ra"].hunt
+  \* RA branch (96b01bc): h.Lock(); if h.huntList.Len() > 0 && !h.closed { ch := h.closeChan; h.closeChan = make(chan bool); close(ch) }; Unlock()
+  \/ /\ pc["ra"] = "ra_read" /\ h6Mu = NoProc /\ h6Mu' = "ra" /\ Goto("ra", "ra_swap")
+     /\ UNCHANGED <<Data, sess, row, loc, arpMu, hunting, arpClosed, closeChanClosed, h6Chan, h6Closed, sessClosed, Flags>>
+  \/ /\ pc["ra"] = "ra_swap" /\ h6Mu' = NoProc /\ Goto("ra", "done")
+     /\ IF ~h6Closed
         THEN /\ h6Chan' = h6Chan + 1
-             /\ panicked' = (panicked \/ loc["closer"].fi = h6Chan + 1)      \* close(ch) of the channel Close closed meanwhile
+             /\ panicked' = (panicked \/ loc["closer"].fi = h6Chan + 1)      \* close(ch) of a channel Close closed (unreachable now)
         ELSE UNCHANGED <<h6Chan, panicked>>
-     /\ UNCHANGED <<Data, sess, row, loc, arpMu, hunting, arpClosed, closeChanClosed, h6Mu, h6Closed, sessClosed, staleDel>>
+     /\ UNCHANGED <<Data, sess, row, loc, arpMu, hunting, arpClosed, closeChanClosed, h6Closed, sessClosed, staleDel>>
 
 AllDone == \A p \in Procs : pc[p] = "done"
 Terminated == AllDone /\ UNCHANGED vars
@@ -602,24 +608,28 @@ Acc(p) ==
                \cup (CASE op = "Capture" -> {A(MF(mm, "captured"), TRUE, "Session.Capture/Captured")}
                        [] op = "Release" -> IF em # 0 THEN {A(MF(mm, "captured"), TRUE, "Session.Release/Captured")} ELSE {}
                        [] OTHER -> {A(MF(mm, "offer"), TRUE, "Session.SetDHCPv4IPOffer/IP4Offer")})
-       [] c = "arp_act" -> {A(<<"arp.closed">>, FALSE, "arp_spoofer.Handler.spoofLoop/closed")}
-       [] c = "arp_check" -> {A(<<"arp.huntList">>, FALSE, "arp_spoofer.Handler.spoofLoop/huntList")}
-       [] c = "ish_read" -> {A(<<"arp.huntList">>, FALSE, "arp_spoofer.Handler.findHuntByIP/huntList")}
+       [] c = "arp_check" -> {A(<<"arp.huntList">>, FALSE, "arp_spoofer.Handler.spoofLoop/huntList"), A(<<"arp.closed">>, FALSE, "arp_spoofer.Handler.spoofLoop/closed")}
+       [] c = "ish_body" -> {A(<<"arp.huntList">>, FALSE, "arp_spoofer.Handler.findHuntByIP/huntList")}
        [] c = "sth_write" -> {A(<<"arp.huntList">>, TRUE, "arp_spoofer.Handler.StartHunt/huntList")}
        [] c = "nsth_write" -> {A(<<"h6.huntList">>, TRUE, "AddrList.Add/list")}
-       [] c = "cl_arp" -> {A(<<"arp.closed">>, TRUE, "arp_spoofer.Handler.Close/closed")}
-       [] c = "cl_h6" -> {A(<<"h6.closed">>, TRUE, "icmp_spoofer.Handler6.Close/closed"), A(<<"h6.closeChan">>, FALSE, "icmp_spoofer.Handler6.Close/closeChan")}
-       [] c = "ra_read" -> {A(<<"h6.huntList">>, FALSE, "AddrList.Len/list"), A(<<"h6.closed">>, FALSE, "icmp_spoofer.Handler6.ProcessPacket/closed")}
-       [] c = "ra_swap" -> IF loc[p].hunt THEN {A(<<"h6.closeChan">>, TRUE, "icmp_spoofer.Handler6.ProcessPacket/closeChan")} ELSE {}
-       [] c = "ndp_check" -> {A(<<"h6.closed">>, FALSE, "icmp_spoofer.Handler6.spoofLoop/closed"), A(<<"h6.huntList">>, FALSE, "AddrList.Index/list")}
-       [] c = "ndp_select" -> {A(<<"h6.closeChan">>, FALSE, "icmp_spoofer.Handler6.spoofLoop/closeChan")}
+       [] c = "cl_arp_body" -> {A(<<"arp.closed">>, TRUE, "arp_spoofer.Handler.Close/closed")}
+       [] c = "cl_h6_body" -> {A(<<"h6.closed">>, TRUE, "icmp_spoofer.Handler6.Close/closed"), A(<<"h6.closeChan">>, FALSE, "icmp_spoofer.Handler6.Close/closeChan")}
+       [] c = "ra_swap" -> {A(<<"h6.huntList">>, FALSE, "AddrList.Len/list"), A(<<"h6.closed">>, FALSE, "icmp_spoofer.Handler6.ProcessPacket/closed")}
+                           \cup (IF ~h6Closed THEN {A(<<"h6.closeChan">>, TRUE, "icmp_spoofer.Handler6.ProcessPacket/closeChan")} ELSE {})
+       [] c = "ndp_check" -> {A(<<"h6.closed">>, FALSE, "icmp_spoofer.Handler6.spoofLoop/closed"), A(<<"h6.huntList">>, FALSE, "AddrList.Index/list"),
+                              A(<<"h6.closeChan">>, FALSE, "icmp_spoofer.Handler6.spoofLoop/closeChan")}
        [] c = "arp_select" -> {}
        [] OTHER -> {}
 
 \* a data race: two processes whose next steps are both enabled, access one location, one of them writing
-\* (the result is a set of unordered pairs {siteA, siteB}; a pair of equal sites is a singleton)
+\* Go type that owns a location (for the Type.field name of a race)
+TypeOf(l) == CASE l[1] = "h" -> "Host" [] l[1] = "m" -> "MACEntry" [] l[1] = "htab" -> "HostTable" [] l[1] = "mtab" -> "MACTable"
+               [] l[1] \in {"arp.closed", "arp.huntList"} -> "arp_spoofer.Handler"
+               [] l[1] \in {"h6.closed", "h6.closeChan"} -> "icmp_spoofer.Handler6"
+               [] l[1] = "h6.huntList" -> "AddrList" [] OTHER -> "?"
+\* (the result is a set of [t: owning type, sites: unordered pair {siteA, siteB}]; equal sites give a singleton)
 Races ==
-  UNION {UNION {{{a.site, b.site} : b \in {y \in Acc(pq[2]) : y.loc = a.loc /\ (y.w \/ a.w)}} : a \in Acc(pq[1])}
+  UNION {UNION {{[t |-> TypeOf(a.loc), sites |-> {a.site, b.site}] : b \in {y \in Acc(pq[2]) : y.loc = a.loc /\ (y.w \/ a.w)}} : a \in Acc(pq[1])}
          : pq \in {x \in Procs \X Procs : x[1] # x[2]}}
 
 -----------------------------------------------------------------------------
@@ -659,4 +669,6 @@ C05_StructureUnlessWriter == sess.w = NoProc => C05_Structure
 \* AllDone) this says that every loop ends after Close
 CloseStops == Handlers => /\ (pc["closer"] = "done" /\ pc["arp"] = "arp_select") => closeChanClosed
                           /\ (pc["closer"] = "done" /\ pc["ndp"] = "ndp_wait") => h6Closed
+\* the handler flags and lists are race free since bc9b0bc / f0fba2f / 96b01bc
+HandlersRaceFree == \A r \in Races : r.t \notin {"arp_spoofer.Handler", "icmp_spoofer.Handler6", "AddrList"}
 =============================================================================
